@@ -175,6 +175,17 @@ Theorem C01_set_value_is_source : forall (m : dmgr) s r v sd so,
   let '(m', s', out) := set_value m s r v sd so in ((m', s', o_trace out), res_of (o_err out)).
 Proof. exact src_set_value_eq. Qed.
 
+(* every public route of an assignment - ref[key] = v, ref.attr = v, ref._set_to_expr(e), the DepEnv proxy - as written
+   (bodies checked against refs.py / tasks.py on every run) IS set_value on the location owner ++ [key]: the same manager,
+   containers, tasks run and exception as the model's set_value *)
+Theorem C01_routes_are_set_value : forall (m : dmgr) s owner key v sd so,
+  src_setitem task_run owner key v sd so (m, s, []) = src_set_value task_run (owner ++ [key]) v sd so (m, s, []) /\
+  src_setattr task_run owner key v sd so (m, s, []) = src_set_value task_run (owner ++ [key]) v sd so (m, s, []) /\
+  src_env_set task_run owner key v sd so (m, s, []) = src_set_value task_run (owner ++ [key]) v sd so (m, s, []) /\
+  src_set_to_expr task_run (owner ++ [key]) v sd so (m, s, []) =
+    (let '(m', s', out) := set_value m s (owner ++ [key]) v sd so in ((m', s', o_trace out), res_of (o_err out))).
+Proof. intros. repeat split; try reflexivity. apply src_set_value_eq. Qed.
+
 Theorem C01_task_run_is_source : forall (t : dtask) (m : dmgr) s tr,
   task_run t (m, s, tr) = let '(s', er) := exec t s in ((m, s', tr), res_of er).
 Proof. exact task_run_eq. Qed.
@@ -191,5 +202,6 @@ Print Assumptions C01_order_independent_partial.
 Print Assumptions C01_refuted_nested_siblings.
 Print Assumptions C01_nonvacuous.
 Print Assumptions C01_set_value_is_source.
+Print Assumptions C01_routes_are_set_value.
 Print Assumptions C01_task_run_is_source.
 Print Assumptions C01_exprtask_init_is_source.
